@@ -1,0 +1,27 @@
+//go:build verif
+
+// Contracts for package serveruser (comment-only; read by /verif/govc).
+
+package serveruser
+
+//@ // tryState is not yet verified: only its effect on the ghost flag is stated (a
+//@ // discovery attempt invalidates any earlier currency check of the generation).
+//@ func tryState(state *state, encryptedMeta []byte, source Source, hintMandatory bool) (r discoveryResult)
+//@   trusted candidate-order proof (cache independence, hint preference) is future work; see DESIGN.md C07
+//@   modifies ghost(recheck)
+//@   ensures ghost(recheck) == 0
+//@
+//@ // Reload safety (C07): the publisher may be replaced by SetUsers at any moment
+//@ // (every read of it returns an arbitrary value). With requireCurrent, a successful
+//@ // discovery returns a generation that was read from the publisher again AFTER the
+//@ // discovery attempt finished - so a connection is never authenticated against a
+//@ // generation that a completed reload has already replaced.
+//@ func discoverUser(publisher *atomic.Pointer[state], hintMandatory *atomic.Bool, encryptedMetadata []byte, source Source, requireCurrent bool, afterAttempt func(*state)) (result discoveryResult, err error)
+//@   property C07
+//@   mode int
+//@   noframe
+//@   volatile Pointer_sync_atomic.Pointer[github.com_enfein_mieru_v3_pkg_protocol_serveruser.state].v, .v
+//@   ensures err == nil ==> result.block != nil && result.generation != nil
+//@   ensures err == nil && requireCurrent ==> ghost(recheck) == 1 && mathint(result.generation) == ghost(lastload)
+//@   loop 1:
+//@     invariant true
